@@ -88,7 +88,7 @@ func (S) Info() scen.Info {
 			"goroutine scheduling": "stub: seeded one-at-a-time scheduler; yields at every storage seam call and inside callbacks",
 			"reference model":      "abstract tree with expanded links + reference updater (replace / insert / delete / append / create-parents / transparent link crossing)",
 		},
-		QuickUnits: 24000, ThoroughUnits: 3000000, QuickSecs: 240, ThoroughSecs: 1200,
+		QuickUnits: 50000, ThoroughUnits: 3000000, QuickSecs: 240, ThoroughSecs: 1200,
 		ProbeKeys: []string{"probe.walk_transform_across_links", "probe.chooser_map_prototype", "probe.below_link", "probe.below_two_links", "probe.delete_map", "probe.insert_key", "probe.append", "probe.create_parents", "probe.identity", "probe.expected_error", "probe.typed_transform", "probe.replacement_from_other_implementation", "probe.selector_reused", "probe.float_zero_sign_flipped_below_link", "probe.walk_transform", "probe.walk_transform_selector_matched", "probe.int_backed_segment", "probe.fault_made_transform_fail", "probe.fault_survived", "probe.history_ge_3"},
 		EventsKey: "events",
 	}
